@@ -352,6 +352,21 @@ pub fn check_clients(c: &mut Cluster) {
                         ));
                     }
                 }
+                // a response that arrives only after the deadline (plus tick slack) is late
+                ClientOutcome::Pending => {}
+                _ if cl.resolved_at_event == Some(c.events_applied) => {
+                    let age = c.clock_ms.saturating_sub(cl.invoked_ms);
+                    if age > bound {
+                        viol.push((
+                            "C30".into(),
+                            format!("late{}", cl.id),
+                            format!(
+                                "request {:?}{:?} accepted by node {} (then {:?} of term {}) was answered only {} ms after it was made (deadline {} ms + tick slack)",
+                                cl.write, cl.read, cl.node, cl.role_at_invoke, cl.term_at_invoke, age / 1000 * 1000, c.opts.raft_timeout_ms
+                            ),
+                        ));
+                    }
+                }
                 _ => {}
             }
         }
